@@ -533,6 +533,12 @@ func value(t *rapid.T, c *Cfg, depth int) model.Value {
 		n := childCount(t, depth)
 		for i := 0; i < n; i++ {
 			v.Elems = append(v.Elems, value(t, c, depth+1))
+			if v.Kind == model.Sexp && Chance(t, 6) {
+				// three values that, run together, would spell a typed null
+				v.Elems = append(v.Elems, model.Value{Kind: model.Null, IsNull: true},
+					model.Value{Kind: model.Symbol, Sym: model.S(".")},
+					model.Value{Kind: model.Symbol, Sym: model.S(Pick(t, []string{"int", "null", "struct", "symbol", "bool", "x"}))})
+			}
 		}
 	case model.Struct:
 		n := childCount(t, depth)
